@@ -148,7 +148,13 @@ fn prep_exec(r: &mut Rng, id: u32, cols: Vec<ColSpec>, prog: Program) -> Vec<Cmd
     ]
 }
 
-fn gen_c07(r: &mut Rng, _t: Tier, _job: u64) -> Plan {
+fn gen_c07(r: &mut Rng, _t: Tier, job: u64) -> Plan {
+    if job % 12 == 7 {
+        // integers of every Rust type into integer columns of every width and signedness,
+        // including combinations the encoder has to refuse (same width, opposite sign): a value
+        // that is accepted must arrive as itself (C15's plans and oracle)
+        return super::props3::gen_c15_seeded(r);
+    }
     let ncols = ncols_c07(r);
     let cols: Vec<ColSpec> = (0..ncols)
         .map(|_| {
@@ -242,11 +248,23 @@ fn gen_c07(r: &mut Rng, _t: Tier, _job: u64) -> Plan {
     p
 }
 
+fn c07_extra(plan: &Plan, out: &Outcome, vs: &mut Vec<Violation>) {
+    let probe = plan.cmds.iter().any(|c| matches!(&c.act, Act::Program(p) if p.probe_cells));
+    if probe {
+        // a C15 plan: refusals (Err or panic inside the probed call) end the run early by
+        // design; only C15's integer oracle and the decoder speak
+        vs.retain(|v| v.rule == "resp-malformed");
+        super::props3::c15_extra_judge(plan, out, vs);
+    } else {
+        panic_only_after_success(plan, out, vs);
+    }
+}
+
 pub fn c07() -> Simple {
     Simple {
         id: "C07",
         decided_by: "inputs (column lists x NULL patterns x values); schedule axis orthogonal",
-        rule_text: "one run = PREPARE + EXECUTE answered with a binary resultset of 1..300 columns (weighted to NULL-bitmap byte boundaries 6,7,8,14,15,16,17,22,23) of every type the encoder supports x UNSIGNED x NOT NULL, NULL patterns none/all/single/alternating/random, values per type incl. DATE/DATETIME/TIMESTAMP with and without microseconds and TIME in its 0/8/12-byte forms, generic values; one refusal case per ~5 runs (NULL into NOT NULL, value of a kind the column cannot carry). Oracle: binary-row decoder driven by the definitions as received; accepted => decodes to exactly the written value; bitmap bit (i+2) <=> cell i NULL, other bits zero; refusal cases must return Err. Distinct = plan signature.",
+        rule_text: "one run = PREPARE + EXECUTE answered with a binary resultset of 1..300 columns (weighted to NULL-bitmap byte boundaries 6,7,8,14,15,16,17,22,23) of every type the encoder supports x UNSIGNED x NOT NULL, NULL patterns none/all/single/alternating/random, values per type incl. DATE/DATETIME/TIMESTAMP with and without microseconds and TIME in its 0/8/12-byte forms, generic values; one refusal case per ~5 runs (NULL into NOT NULL, value of a kind the column cannot carry); one job in 12 is a C15 plan (integers of every Rust type into integer columns of every width and signedness, judged by C15's oracle: accepted => same number). Oracle: binary-row decoder driven by the definitions as received; accepted => decodes to exactly the written value; bitmap bit (i+2) <=> cell i NULL, other bits zero; refusal cases must return Err. Distinct = plan signature.",
         quick: 200_000,
         thorough: 5_000_000,
         budget_q: 60,
@@ -262,9 +280,12 @@ pub fn c07() -> Simple {
             "panic",
             "end",
             "resp-missing",
+            "int-altered",
+            "int-refused",
+            "int-unaccounted",
         ],
         gen: gen_c07,
-        extra: Some(panic_only_after_success),
+        extra: Some(c07_extra),
         assumptions: INPUT_ASSUME,
     }
 }
@@ -1236,9 +1257,9 @@ impl Check for C13 {
 // C14 — completion counts
 
 /// A zero-column resultset on which the shim ends a great many rows: the count reported in the
-/// OK passes 2^16, 2^24, 2^31 and (thorough tier only: a few seconds of CPU each) 2^32.
-fn gen_c14_bulk(r: &mut Rng, t: Tier) -> Plan {
-    let n: u64 = match r.below(if t == Tier::Thorough { 5 } else { 3 }) {
+/// OK passes 2^16, 2^24, 2^26 and 2^32 (one job per batch in the quick tier, more in thorough).
+fn gen_c14_bulk(r: &mut Rng, t: Tier, past_u32: bool) -> Plan {
+    let n: u64 = match if past_u32 { 3 + r.below(2) } else { r.below(if t == Tier::Thorough { 5 } else { 3 }) } {
         0 => (1 << 16) - 2 + r.below(5),
         1 => (1 << 24) - 2 + r.below(5),
         2 => (1 << 26) + r.below(1000),
@@ -1310,7 +1331,9 @@ fn gen_c14_bulk(r: &mut Rng, t: Tier) -> Plan {
 
 fn gen_c14(r: &mut Rng, t: Tier, job: u64) -> Plan {
     if job % 100_000 == 54_321 {
-        return gen_c14_bulk(r, t);
+        // the first of these jobs always goes past 2^32 rows (a few seconds of CPU on one
+        // worker while the others carry on), also in the quick tier
+        return gen_c14_bulk(r, t, job == 54_321);
     }
     let mut cmds = Vec::new();
     let n = 1 + r.usize_below(3);
